@@ -13,7 +13,12 @@ def solve_linear_equation(A: np.ndarray, b: np.ndarray):
 
     """
     (posv,) = get_lapack_funcs(("posv",), (A, b))
-    _, x, _ = posv(A, b, lower=False, overwrite_a=False, overwrite_b=False)
+    _, x, info = posv(A, b, lower=False, overwrite_a=False, overwrite_b=False)
+    if info != 0:
+        raise np.linalg.LinAlgError(
+            "Normal equations could not be solved by posv (info = %d): "
+            "the matrix is not positive definite." % info
+        )
     return x
 
 
